@@ -299,7 +299,10 @@ def cases(draw, switches):
                 e_ = ["fn", "INT", [["bin", "+", fg.g.num_leaf(), cbgen.lit_expr(k_)]]]
                 for q_ in range(draw(st.integers(2, 3))):
                     fg.g.n_conv += 1
-                    e_ = ["bin", "+", e_, ["fn", draw(st.sampled_from(["INT", "VAL"])), [["str", str(q_ + k_)]] if False else [["bin", "*", fg.g.num_leaf(), cbgen.lit_expr(q_ + 2)]]]]
+                    if draw(st.booleans()):
+                        e_ = ["bin", "+", e_, ["fn", "INT", [["bin", "*", fg.g.num_leaf(), cbgen.lit_expr(q_ + 2)]]]]
+                    else:
+                        e_ = ["bin", "+", e_, ["fn", "VAL", [["str", str(q_ + k_)]]]]
                 return e_
             which = draw(st.sampled_from(["HLINE", "HPUT", "HARC", "HGET"]))
             if which == "HLINE":
